@@ -332,7 +332,7 @@ type pureResult struct {
 
 // pureCall symbolically evaluates fn (ghost / spec code) on all paths and merges the results.
 func (m *Machine) pureCall(st *State, fn *ssa.Function, args []Value, fvals []Value) []Value {
-	sub := &State{pure: true, opaque: st.opaque, heap: cloneHeap(st.heap), locks: st.locks, chanQ: map[int][]chanQuery{}, chanVer: st.chanVer, definable: st.definable, defs: st.defs}
+	sub := &State{pure: true, opaque: st.opaque, evBase: st.evBase, heap: cloneHeap(st.heap), locks: st.locks, chanQ: map[int][]chanQuery{}, chanVer: st.chanVer, definable: st.definable, defs: st.defs}
 	sub.pc = append([]*Term{}, st.pc...)
 	sub.events = st.events
 	sub.fresh = make([]*freshObj, len(st.fresh))
@@ -629,7 +629,7 @@ func init() {
 			}
 			name := constStringArg(instr, 0)
 			n := 0
-			for _, e := range st.events {
+			for _, e := range st.events[st.evBase:] {
 				if e.Name == name {
 					n++
 				}
@@ -640,7 +640,7 @@ func init() {
 			if st.opaque != 0 {
 				return m.ctx.App(fmt.Sprintf("calleeEvTotal!%d", st.opaque), m.ts.Idx())
 			}
-			return m.ts.IdxConst(int64(len(st.events)))
+			return m.ts.IdxConst(int64(len(st.events) - st.evBase))
 		},
 		"evIndex": func(m *Machine, st *State, fr *Frame, instr ssa.Instruction, fn *ssa.Function, args []Value) Value {
 			if st.opaque != 0 {
@@ -649,7 +649,7 @@ func init() {
 			name := constStringArg(instr, 0)
 			k := m.constIntArg(instr, 1, args[1])
 			n := 0
-			for i, e := range st.events {
+			for i, e := range st.events[st.evBase:] {
 				if e.Name == name {
 					if n == k {
 						return m.ts.IdxConst(int64(i))
@@ -706,6 +706,56 @@ func init() {
 		"splitOf": func(m *Machine, st *State, fr *Frame, instr ssa.Instruction, fn *ssa.Function, args []Value) Value {
 			return m.splitValue(st, args[0].(*Str), m.strConst("/"), types.Typ[types.String])
 		},
+		"mapSnap": func(m *Machine, st *State, fr *Frame, instr ssa.Instruction, fn *ssa.Function, args []Value) Value {
+			t := fn.Signature.Params().At(0).Type()
+			ref := args[0].(*Term)
+			name, mt := m.mapNames(t)
+			ks := m.ts.Leaves(mt.Key())[0].sort
+			pa, _ := m.mapPresent(st, t, ref)
+			ms := &MapSnap{Present: m.ctx.Select(pa, ref), Map: mt}
+			for _, l := range m.ts.Leaves(mt.Elem()) {
+				n := name + ".val." + l.path
+				a := m.heapGet(st, n, ArrSort(IntSort, ArrSort(ks, l.sort)))
+				ms.Vals = append(ms.Vals, m.ctx.Select(a, ref))
+			}
+			return ms
+		},
+		"snapHas": func(m *Machine, st *State, fr *Frame, instr ssa.Instruction, fn *ssa.Function, args []Value) Value {
+			ms := args[0].(*MapSnap)
+			return m.ctx.Select(ms.Present, args[1].(*Term))
+		},
+		"snapGet": func(m *Machine, st *State, fr *Frame, instr ssa.Instruction, fn *ssa.Function, args []Value) Value {
+			ms := args[0].(*MapSnap)
+			k := args[1].(*Term)
+			present := m.ctx.Select(ms.Present, k)
+			var terms []*Term
+			for i, l := range m.ts.Leaves(ms.Map.Elem()) {
+				terms = append(terms, m.ctx.Ite(present, m.ctx.Select(ms.Vals[i], k), m.ts.zeroOf(l.sort)))
+			}
+			return m.ts.Unflatten(ms.Map.Elem(), &terms)
+		},
+		"mapHas": func(m *Machine, st *State, fr *Frame, instr ssa.Instruction, fn *ssa.Function, args []Value) Value {
+			t := fn.Signature.Params().At(0).Type()
+			_, present := m.mapGet(st, t, args[0].(*Term), args[1].(*Term))
+			return present
+		},
+		"validUTF8": func(m *Machine, st *State, fr *Frame, instr ssa.Instruction, fn *ssa.Function, args []Value) Value {
+			s := args[0].(*Str)
+			return m.ctx.App("validUTF8", BoolSort, s.Len, s.Arr)
+		},
+		"maxAlloc": func(m *Machine, st *State, fr *Frame, instr ssa.Instruction, fn *ssa.Function, args []Value) Value {
+			if st.opaque != 0 {
+				return m.ctx.App(fmt.Sprintf("calleeMaxAlloc!%d", st.opaque), m.ts.Idx())
+			}
+			mx := m.ts.IdxConst(0)
+			for _, e := range st.events[st.evBase:] {
+				if e.Name == "make" {
+					sz := e.Args[0].(*Term)
+					mx = m.ctx.Ite(m.idxLt(mx, sz), sz, mx)
+				}
+			}
+			return mx
+		},
 		"ghostTrue": func(m *Machine, st *State, fr *Frame, instr ssa.Instruction, fn *ssa.Function, args []Value) Value {
 			return m.ctx.T
 		},
@@ -727,7 +777,7 @@ func (m *Machine) entryFresh(st *State) int {
 
 func (m *Machine) findEvent(st *State, name string, k int) *Event {
 	n := 0
-	for _, e := range st.events {
+	for _, e := range st.events[st.evBase:] {
 		if e.Name == name {
 			if n == k {
 				return e
